@@ -122,6 +122,9 @@ type allocCase struct {
 	pre       []c01Line // accept-cfg / accept-usedef / accept-stage lines
 	nIOPairs  int
 	orig      []c01Snapshot // per instruction: registers of operands / inputs / outputs before allocation (own traversal)
+	// input-class counters (own traversal, before allocation): author-written RESTRICTED registers (SP views, K0) next to
+	// virtual registers of the same kind, and plain register-to-register moves by the class of their two sides
+	nVirtNextToRestricted, nMoveVirtRestricted, nMoveVirtPhys, nMoveVirtVirt int
 }
 
 type c01Snapshot struct{ ops, ins, outs []c01RoleReg }
@@ -201,6 +204,7 @@ func c01RunPipeline(fn *ir.Function) (c allocCase, ok bool, why string) {
 				virt[x.r.ID()] = true
 			}
 		}
+		c01CountClasses(&c, i, own)
 		var impl, uses, defs []reg.Register
 		if _, p := safely(func() error { impl, uses, defs = i.Registers(), i.InputRegisters(), i.OutputRegisters(); return nil }); p {
 			c.pre = append(c.pre, c01Stage("registers", "panic"))
@@ -253,6 +257,153 @@ func c01RunPipeline(fn *ir.Function) (c allocCase, ok bool, why string) {
 	c.bindReq, c.encReq, c.nIOPairs, shape = c01BindReqs(orig, is, "bind-shape")
 	c.pre = append(c.pre, shape...)
 	return c, true, ""
+}
+
+// c01CountClasses records which input classes one instruction (before allocation) belongs to.
+func c01CountClasses(c *allocCase, i *ir.Instruction, own []c01RoleReg) {
+	for _, x := range own {
+		if !isRestrictedPhys(x.r) {
+			continue
+		}
+		for _, y := range own {
+			if y.r.ID().IsVirtual() && y.r.Kind() == x.r.Kind() {
+				c.nVirtNextToRestricted++
+				break
+			}
+		}
+		break
+	}
+	if a, b, ok := isPlainRegMove(i); ok {
+		av, bv := a.ID().IsVirtual(), b.ID().IsVirtual()
+		switch {
+		case av && bv:
+			c.nMoveVirtVirt++
+		case (av && isRestrictedPhys(b)) || (bv && isRestrictedPhys(a)):
+			c.nMoveVirtRestricted++
+		case av || bv:
+			c.nMoveVirtPhys++
+		}
+	}
+}
+
+// c01RestrictedCopy builds the idioms in which a virtual register is a COPY of (or is copied into) the restricted
+// register of its kind — "aligned scratch pointer" (MOVQ SP, p; ANDQ $-64, p), save/restore of SP, a 32/16/8-bit view
+// of SP, KMOVQ K0, k — under register pressure below, at and above the register file.  In the variants `from`, `into`
+// and `both` the restricted register does not interfere with the copy (it is not read after the copy is defined, not
+// written while the copy is live), so nothing but the colour set itself keeps it away from the copy; in `interf` it does.
+func c01RestrictedCopy(r *rng, stats map[string]int) *ir.Function {
+	col := reg.NewCollection()
+	fn := ir.NewFunction("rcopy")
+	add := func(op string, ops ...operand.Op) {
+		if inst, err := x86.VerifBuild(op, nil, ops); err == nil && inst != nil {
+			fn.AddInstruction(inst)
+		} else {
+			stats["rcopy_build_rejected"]++
+		}
+	}
+	variant := pick(r, []string{"from", "from", "into", "both", "interf"})
+	stats["rcopy:"+variant]++
+	if r.chance(1, 5) {
+		// opmask: K0
+		np := r.intn(9)
+		var ps []reg.Register
+		for j := 0; j < np; j++ {
+			p := col.K()
+			ps = append(ps, p)
+			add("KMOVQ", operand.NewParamAddr("x", 8*j), p)
+		}
+		mov := pick(r, []string{"KMOVQ", "KMOVW", "KMOVD", "KMOVB"})
+		k := col.K()
+		switch variant {
+		case "from", "interf":
+			add(mov, reg.K0, k)
+			add("KNOTQ", k, k)
+			if variant == "interf" {
+				add("KORQ", reg.K0, k, k) // K0 read while the copy is live
+			}
+			add("KMOVQ", k, operand.NewParamAddr("y", 0))
+		case "into":
+			add("KMOVQ", operand.NewParamAddr("y", 0), k)
+			add("KNOTQ", k, k)
+			add(mov, k, reg.K0)
+		default:
+			add(mov, reg.K0, k)
+			add("KNOTQ", k, k)
+			add(mov, k, reg.K0)
+		}
+		for j, p := range ps {
+			add("KMOVQ", p, operand.NewParamAddr("z", 8*j))
+		}
+		add("RET")
+		stats["rcopy_kind:k"]++
+		return fn
+	}
+	np := pick(r, []int{0, 1, 3, 7, 12, 13, 14, 15, 16})
+	if r.chance(1, 2) {
+		np = r.intn(14)
+	}
+	var ps []reg.Register
+	for j := 0; j < np; j++ {
+		p := col.GP64()
+		ps = append(ps, p)
+		add("MOVQ", operand.U64(uint64(j)+1<<33), p)
+	}
+	type w struct {
+		s             reg.Spec
+		mov, and, add string
+		imm           operand.Op
+	}
+	c := pick(r, []w{{reg.S64, "MOVQ", "ANDQ", "ADDQ", operand.I8(-64)}, {reg.S64, "MOVQ", "ANDQ", "ADDQ", operand.I8(-64)},
+		{reg.S32, "MOVL", "ANDL", "ADDL", operand.I8(-16)}, {reg.S16, "MOVW", "ANDW", "ADDW", operand.I8(-8)}, {reg.S8L, "MOVB", "ANDB", "ADDB", operand.U8(0xf0)}})
+	var v reg.Register
+	switch c.s {
+	case reg.S64:
+		v = col.GP64()
+	case reg.S32:
+		v = col.GP32()
+	case reg.S16:
+		v = col.GP16()
+	default:
+		v = col.GP8L()
+	}
+	spv := restrictedPhys(reg.KindGP, c.s)
+	store := func() {
+		m := operand.NewParamAddr("y", 0)
+		if r.chance(1, 2) {
+			add(c.mov, v, m)
+		} else {
+			add(c.add, v, m)
+		}
+	}
+	switch variant {
+	case "from":
+		add(c.mov, spv, v)
+		add(c.and, c.imm, v)
+		store()
+	case "interf":
+		add(c.mov, spv, v)
+		add(c.and, c.imm, v)
+		if r.chance(1, 2) {
+			add("SUBQ", operand.U8(32), reg.RSP) // SP written while the copy is live
+		} else {
+			add("LEAQ", operand.Mem{Base: reg.RSP, Disp: 8}, reg.RAX) // SP read while the copy is live
+		}
+		store()
+	case "into":
+		add(c.mov, operand.NewParamAddr("y", 0), v)
+		add(c.and, c.imm, v)
+		add(c.mov, v, spv)
+	default:
+		add(c.mov, spv, v)
+		add(c.and, c.imm, v)
+		add(c.mov, v, spv)
+	}
+	for j, p := range ps {
+		add("MOVQ", p, operand.NewParamAddr("z", 8*j))
+	}
+	add("RET")
+	stats["rcopy_kind:gp"]++
+	return fn
 }
 
 // c01BindReqs pairs, instruction by instruction, the registers found before allocation (orig) with those found now
@@ -399,6 +550,15 @@ func c01GenCfg(r *rng, tier string) genCfg {
 		cfg.opcodes = []string{"VGATHERDPD", "VPGATHERDD", "VPGATHERQQ", "VGATHERQPS", "VPSCATTERDD", "VSCATTERDPD", "VPGATHERDQ",
 			"VMOVDQU64", "VPADDD", "VPXORD", "VPADDQ", "LEAQ", "MOVQ", "ADDQ", "KMOVQ", "KORQ", "VPTERNLOGD", "VFMADD231PD", "VPBLENDMD"}
 	}
+	// author-written RESTRICTED registers (SP in every view, K0) as operands of any opcode next to virtual registers, and
+	// plain register-to-register moves between a virtual register and a restricted / other physical / virtual register
+	if r.chance(2, 5) {
+		cfg.restrictedPct = 3 + r.intn(30)
+		cfg.regMovePct = 3 + r.intn(15)
+		if cfg.physPct < 8 {
+			cfg.physPct += 8
+		}
+	}
 	return cfg
 }
 
@@ -438,6 +598,7 @@ func init() {
 			// the shape is drawn from r; the function itself from a forked stream, so that an identical twin can be
 			// generated once more for the pass.Compile entry point
 			var build func(g *rng) *ir.Function
+			rcopy := false
 			if k%16 == 7 {
 				depth := 2 + r.intn(11)
 				if *f.tier == "thorough" && r.chance(1, 4) {
@@ -448,9 +609,34 @@ func init() {
 				if depth >= 6 {
 					stats["staircase_depth_ge6"]++
 				}
+			} else if k%16 == 11 || k%16 == 3 {
+				// stats are counted on the first build only (the twin for pass.Compile is an identical copy)
+				first := true
+				build = func(g *rng) *ir.Function {
+					st := stats
+					if !first {
+						st = map[string]int{}
+					}
+					first = false
+					return c01RestrictedCopy(g, st)
+				}
+				rcopy = true
 			} else {
 				cfg := c01GenCfg(r, *f.tier)
-				build = func(g *rng) *ir.Function { return newFgen(g, db, cfg).generate() }
+				first := true
+				build = func(g *rng) *ir.Function {
+					fg := newFgen(g, db, cfg)
+					fn := fg.generate()
+					if first {
+						for _, key := range []string{"regmove_restricted", "regmove_phys", "regmove_virt", "regmove_rejected", "restricted_pick"} {
+							if fg.stats[key] > 0 {
+								stats["generated:"+key] += fg.stats[key]
+							}
+						}
+					}
+					first = false
+					return fn
+				}
 			}
 			gs := r.u64()
 			fn := build(&rng{s: gs})
@@ -499,6 +685,21 @@ func init() {
 				o.emit("accept-enc "+c.encReq, "ok")
 				stats["bound_functions"]++
 				stats["bound_input_output_pairs"] += c.nIOPairs
+				// the classes below count only where binding succeeded: that is where a wrong colour would show
+				stats["bound:virt_next_to_restricted_instrs"] += c.nVirtNextToRestricted
+				stats["bound:regmove_virt_restricted"] += c.nMoveVirtRestricted
+				stats["bound:regmove_virt_phys"] += c.nMoveVirtPhys
+				stats["bound:regmove_virt_virt"] += c.nMoveVirtVirt
+				if c.nMoveVirtRestricted > 0 {
+					stats["bound:functions_with_regmove_virt_restricted"]++
+				}
+				if rcopy {
+					stats["bound:rcopy_functions"]++
+				} else {
+					// the same classes reached by the form-table driven generator alone
+					stats["bound:fgen_regmove_virt_restricted"] += c.nMoveVirtRestricted
+					stats["bound:fgen_virt_next_to_restricted_instrs"] += c.nVirtNextToRestricted
+				}
 			}
 			if k%3 == 0 {
 				for _, l := range c01Twin(c, build(&rng{s: gs}), stats) {
